@@ -227,10 +227,17 @@ def cut_loop(ex, s, st, ordn, spec, lo, hi, step, elem_of):
     # calls to repo functions with modifies clauses: add their out-params
     for nm in spec.get("modifies", []):
         stored.add(nm)
+    for nm in spec.get("ghost_assigned", []):
+        assigned.add(nm)
     for nm, ty in (spec.get("locals") or {}).items():
         if nm not in st.env:
             from .verify import parse_type
-            st.env[nm] = fresh(nm, ex.ctx.elem_sort(parse_type(ty)["dtype"]))
+            t = parse_type(ty)
+            if t["kind"] == "array":
+                shape = tuple(d if isinstance(d, int) else st.env[d] for d in t["dims"])
+                st.env[nm] = ex.new_array(st, shape, t["dtype"], None, nm)
+            else:
+                st.env[nm] = fresh(nm, ex.ctx.elem_sort(t["dtype"]))
     st.pre[ordn] = (dict(st.env), dict(st.heap))
     st.pre["last"] = st.pre[ordn]
 
